@@ -40,8 +40,15 @@ func c12SchemaSpec(r *rng) schemaSpec {
 // the shared schema: the spec's types plus a soft type whose maps are nil
 func c12Build(sc schemaSpec) *jsonapi.Schema {
 	s := sc.build()
-	s.Types = append(s.Types, jsonapi.Type{Name: "bare"})
+	s.Types = append(s.Types, c12Loose(), jsonapi.Type{Name: "bare"})
 	return s
+}
+
+// a soft type written by hand, whose relationships do not say where they start
+func c12Loose() jsonapi.Type {
+	return jsonapi.Type{Name: "loose",
+		Attrs: map[string]jsonapi.Attr{"title": {Name: "title", Type: jsonapi.AttrTypeString}},
+		Rels: map[string]jsonapi.Rel{"r": {FromName: "r", ToOne: true, ToType: "other"}, "rs": {FromName: "rs", ToType: "other"}}}
 }
 
 func c12Gallina(sc schemaSpec) string {
@@ -49,7 +56,7 @@ func c12Gallina(sc schemaSpec) string {
 	for _, t := range sc.types {
 		ts = append(ts, t.gType())
 	}
-	ts = append(ts, gType(jsonapi.Type{Name: "bare"}))
+	ts = append(ts, gType(c12Loose()), gType(jsonapi.Type{Name: "bare"}))
 	return "(mkSchema " + gList(ts) + ")"
 }
 
@@ -146,7 +153,7 @@ func c12TypeNames(sc schemaSpec) []string {
 	for _, t := range sc.types {
 		ns = append(ns, t.name)
 	}
-	return append(ns, "bare")
+	return append(ns, "loose", "bare")
 }
 
 func c12RandOp(r *rng, sc schemaSpec) c12Op {
@@ -155,7 +162,7 @@ func c12RandOp(r *rng, sc schemaSpec) c12Op {
 	case 0, 1:
 		return c12Op{kind: "url", arg: randRawURL(r, r.chance(1, 8))}
 	case 2, 3:
-		tn := pick(r, names[:len(names)-1])
+		tn := pick(r, names[:len(names)-2])
 		p := genResourcePayload(r, sc, tn)
 		if r.chance(1, 4) {
 			mutatePayload(r, p)
@@ -166,7 +173,7 @@ func c12RandOp(r *rng, sc schemaSpec) c12Op {
 		}
 		return c12Op{kind: "doc", arg: doc.text(), tn: tn}
 	case 4, 5:
-		tn := pick(r, names[:len(names)-1])
+		tn := pick(r, names[:len(names)-2])
 		p := genResourcePayload(r, sc, tn)
 		if r.chance(1, 4) {
 			mutatePayload(r, p)
@@ -599,6 +606,14 @@ func runC12(c *ctx) {
 		c12Snapshot(c, sc, c12Op{kind: "doc", arg: `{"data":{"type":"bare","id":"1"}}`, tn: "bare"})
 		c12Snapshot(c, sc, c12Op{kind: "partial", arg: `{"type":"bare","id":"1"}`, tn: "bare"})
 		c12Snapshot(c, sc, c12Op{kind: "url", arg: "/bare/1?include=x"})
+		// ... and on the hand-written type
+		loosePayload := `{"type":"loose","id":"1","attributes":{"title":"x"},"relationships":{"r":{"data":{"type":"other","id":"o1"}},"rs":{"data":[{"type":"other","id":"o2"}]}}}`
+		for _, k := range []string{"new", "marshal"} {
+			c12Snapshot(c, sc, c12Op{kind: k, tn: "loose", arg: "1"})
+		}
+		c12Snapshot(c, sc, c12Op{kind: "doc", arg: `{"data":` + loosePayload + `}`, tn: "loose"})
+		c12Snapshot(c, sc, c12Op{kind: "partial", arg: loosePayload, tn: "loose"})
+		c12Snapshot(c, sc, c12Op{kind: "url", arg: "/loose/1/r"})
 	}
 }
 
